@@ -4,7 +4,7 @@ from __future__ import annotations
 
 import ast
 
-from ..core.cfg import CFG
+from ..core.cfg import CFG, assigned_on_every_path
 from ..core.repo import (AnalysisError, Repo, call_name, calls_in, definitions, dotted, func_params, is_const,
                          kwarg, names_in, unparse, walk_no_nested_defs)
 from ..domains.kat import COL, ROW, Comp, Ext, Flat, KAT, Pair
@@ -223,6 +223,13 @@ def run(check, repo: Repo) -> None:
         check.decide(ok, "C02-R8", f"reconstruct: `{callee}(…)` runs on every path to the epoch loop" + (f" with this call's `{argcheck}`" if argcheck else ""), "",
                      tmod.line(sites[0]), fail_detail=f"a path from the entry of reconstruct reaches the epoch loop without `{callee}`"
                      + (f" (or it is not given `{argcheck}`)" if argcheck else "") + f": {why}")
+
+    # the targets are re-derived from the CURRENT amplitudes/intensities on every call that returns normally (no "already set" shortcut:
+    # the data behind them changes with every preprocess())
+    ok, via, _ = assigned_on_every_path(stg, lambda t: dotted(t) in ("self._targets", "self.targets"))
+    check.decide(ok, "C02-R8", "_set_targets assigns the targets on every path that returns normally", f"{len(via)} assigning statements", dmod.line(stg),
+                 fail_detail="a path through _set_targets returns without (re)assigning self._targets: after a second preprocess() (or a changed dataset) the loss is evaluated against "
+                             "the stale targets of the previous data")
 
     # ---- R7 stage wiring --------------------------------------------------------------------------------------------------------
     rt = unparse(rec)
